@@ -4,7 +4,9 @@ Decided:
   R07.a  when a redirect may be issued: the single redirect(...) in dispatch is dominated by: pattern
          matched, method admitted, route.is_branch, normalised path != request path, slash_mode ==
          S_REDIRECT; the strict branch records a not-found error and continues without executing; with
-         neither mode the path falls through to execute (rewrite);
+         neither mode the path falls through to execute (rewrite); the canonicity test compares
+         normalize_path(request path) and the request path in the same representation (both decoded, or both
+         through the same URL-quoting call) -- a canonical path must be a fixed point of the test;
   R07.b  the Location is escaped: the path component (derived from request.path via normalize_path)
          passes through a URL-quoting function whose ``safe`` set does not contain '?', '#' or '%' before
          it is concatenated; the query component derives from request.query_string and is not re-quoted;
